@@ -3739,7 +3739,7 @@ void run_metrics(vh::Case &c, const Shape &sh, const std::vector<MetricOp> &ops,
     bool expect_data = false;
     for (auto &in : instruments)
       expect_data = expect_data || (in.made > r.born && in.first_use != 0);
-    size_t calls = 0, unreferenced = 0;
+    size_t calls = 0, unreferenced = 0, empty_unreferenced = 0;
     std::string name = "batch #" + std::to_string(r.batches.size()) + " of reader #" + std::to_string(j);
     // Collect() is noexcept: nothing may be thrown from inside the callback
     r.reader->Collect([&](metrics_sdk::ResourceMetrics &rm) {
@@ -3751,7 +3751,7 @@ void run_metrics(vh::Case &c, const Shape &sh, const std::vector<MetricOp> &ops,
       {
         unreferenced += metrics;
         if (metrics == 0)
-          c.tag("metrics/empty-batch-without-resource");  // nothing in it that could reference a resource
+          ++empty_unreferenced;  // "every ... metric batch references its provider's resource": an empty one too
         return true;
       }
       Seen s    = snapshot(name, *rm.resource_);
@@ -3760,6 +3760,7 @@ void run_metrics(vh::Case &c, const Shape &sh, const std::vector<MetricOp> &ops,
       return true;
     });
     VH_CHECK(c, unreferenced == 0, "the metric " << name << " holds " << unreferenced << " metric(s) but references no resource");
+    VH_CHECK(c, empty_unreferenced == 0, "the metric " << name << " (no metrics in it) references no resource");
     VH_CHECK(c, calls == 1, "Collect() of reader #" << j << " invoked the callback " << calls << " times");
     if (expect_data)
       VH_CHECK(c, !r.batches.empty() && r.batches.back().metrics >= 1,
